@@ -1,7 +1,7 @@
 (* C39 -- property theorems only.  Each closed by [exact]; Print Assumptions beneath. *)
 From Coq Require Import List ZArith Bool.
 Import ListNotations.
-Require Import V.C39.Model V.C39.Enc V.C39.Proofs V.C39.Proofs2.
+Require Import V.C39.Model V.C39.Enc V.C39.Proofs V.C39.Proofs2 V.C39.Proofs3 V.C39.Proofs4 V.C39.Proofs5 V.C39.Proofs6.
 Open Scope Z_scope.
 
 (* odict: over EVERY sequence of operations (set, del, append, clear, create, insert, pop with and
@@ -73,6 +73,61 @@ Theorem oset_ordered_set : forall a b, NoDup a -> NoDup b ->
   (forall k x, In x (s_discard k a) <-> In x a /\ x <> k).
 Proof. exact oset_order_all. Qed.
 Print Assumptions oset_ordered_set.
+
+(* REFINEMENT, per operation: in a consistent state every one of the 25 modelled odict operations returns
+   what the abstract insertion-ordered dictionary (ONE association list: rebinding keeps the position, a
+   new key goes to the end, ...; Model.a_step) returns on the items, and leaves the items it leaves *)
+Theorem odict_step_refines : forall (o : zod) x, inv o ->
+  a_step (items o) x = (items (fst (step o x)), snd (step o x)).
+Proof. exact step_sim. Qed.
+Print Assumptions odict_step_refines.
+
+(* ... hence for EVERY op sequence from any constructor argument: same return values / exception
+   classes, same keys, same items after every step *)
+Theorem odict_refines_ordered_dict : forall ps ops, trace (init ps) ops = a_trace (a_sets ps []) ops.
+Proof. exact trace_init_sim. Qed.
+Print Assumptions odict_refines_ordered_dict.
+
+(* lodict: for every idempotent lower-casing function, over every op sequence from any constructor
+   argument, _keys = dom dict without duplicates AND every stored key is lower case *)
+Theorem lodict_inv_all_ops : forall lower, (forall k, lower (lower k) = lower k) ->
+  forall ps ops, linv lower (lo_run lower (lo_init lower ps) ops).
+Proof. exact (fun lower H ps ops => lo_run_linv lower H ops _ (linv_lo_init lower H ps)). Qed.
+Print Assumptions lodict_inv_all_ops.
+
+(* modict: over every op sequence without popitem/poplistitem (add, replace, setdefault, pop, poplist,
+   del, update from pairs / dict / modict, clear, copy, pickle, reads) the structure stays consistent,
+   the list kept for key k is exactly the history specification (all values added since k was last
+   removed / replaced / cleared, in order), m[k] / get(k) return its LAST element and getlist the list *)
+Theorem modict_keeps_all_returns_newest : forall ps0 ops k, no_popitem ops = true ->
+  let m := m_run (m_adds ps0 empty) ops in
+  inv m /\
+  getlist k m = fold_left (hist_step k) ops (map snd (filter (fun p => fst p =? k) ps0)) /\
+  (getlist k m <> [] ->
+     snd (m_step m (MGet k)) = QInt (last (getlist k m) 0) /\ snd (m_step m (MGetList k)) = QList (getlist k m) /\
+     forall d, snd (m_step m (MGetD k d)) = QInt (last (getlist k m) 0)).
+Proof. exact modict_main. Qed.
+Print Assumptions modict_keeps_all_returns_newest.
+
+(* modict structure invariant over ALL op sequences, popitem / poplistitem included *)
+Theorem modict_inv_all_ops : forall ps0 ops, inv (m_run (m_adds ps0 empty) ops).
+Proof. exact (fun ps0 ops => m_run_inv ops _ (inv_m_adds ps0 empty inv_empty)). Qed.
+Print Assumptions modict_inv_all_ops.
+
+(* oset.pop() returns and removes the element added last, pop(last=False) the earliest, KeyError if empty *)
+Theorem oset_pop_order : forall s k,
+  (~ In k s -> s_step (s ++ [k]) (SPop true) = (s, TInt k)) /\ s_step (k :: s) (SPop false) = (s, TInt k) /\
+  (forall b, s_step [] (SPop b) = ([], TErr KeyError)).
+Proof. exact oset_pop_order_all. Qed.
+Print Assumptions oset_pop_order.
+
+(* in-place operators: |= appends b's new elements in b's order; -= and &= keep a's order *)
+Theorem oset_inplace_order : forall a b, NoDup a -> NoDup b ->
+  fst (s_step a (SIor b)) = a ++ filter (fun x => negb (kmem x a)) b /\
+  fst (s_step a (SIsub b)) = filter (fun x => negb (kmem x b)) a /\
+  fst (s_step a (SIand b)) = filter (fun x => kmem x b) a.
+Proof. exact oset_inplace_order_all. Qed.
+Print Assumptions oset_inplace_order.
 
 (* non-vacuity *)
 Example c39_odict_example :
